@@ -109,10 +109,19 @@ def run(ctx):
     news = [e for e in sj.stores() if e.sub and e.value[0] == "call" and e.value[1] == "new:forsys.vertex.Vertex"]
     if len(news) != 1:
         raise AnalysisError("join_two_vertices: creation of the merged vertex not found")
-    v0, v1 = sj.env.get("v0"), sj.env.get("v1")
-    if v0 is None or v1 is None:
-        # fall back: the two vertices are whatever is deleted at the end
-        raise AnalysisError("join_two_vertices: locals v0 / v1 not found - re-bind the anchor")
+    # the two merged vertices are the ones deleted from the vertex dictionary at the end (their ids are the deletion keys)
+    def unattr(t, name):
+        if t[0] == "attr" and t[2] == name:
+            return t[1]
+        if t[0] == "phi":
+            a, b = unattr(t[2], name), unattr(t[3], name)
+            return T.phi(t[1], a, b) if a is not None and b is not None else None
+        return None
+    dels = [e for e in sj.events if e.kind == "del" and e.key is not None and unattr(e.key, "id") is not None
+            and e.node.lineno > news[0].node.lineno]
+    if len(dels) != 2:
+        raise AnalysisError(f"join_two_vertices: expected the two merged vertices to be deleted by id, found {len(dels)} deletions - re-bind the anchor")
+    v0, v1 = unattr(dels[0].key, "id"), unattr(dels[1].key, "id")
     a = news[0].value[2]
     half = T.num(Fraction(1, 2))
     for k, c in ((1, "x"), (2, "y")):
